@@ -28,58 +28,94 @@ func c18(c *core.Ctx, r *core.Report) {
 	for _, p := range probs {
 		r.Fail("infra.operand-table", p, "", "cannot extract go/ssa operand table")
 	}
-	d := c.FindDispatch("analysis/reachability", "preTraversalVisitValuesInstruction", core.SSAPath, "Instruction")
-	if d == nil {
-		r.Fail("infra.anchor-unresolved", "R18.operands|analysis/reachability.preTraversalVisitValuesInstruction", "", "not found")
+	// SSA, helpers inlined: a field read F on a value of static type *ssa.K anywhere in the scan (the functions of the
+	// package that take an ssa.Instruction, and what they call) is a visit of operand K.F; reads through a
+	// CallCommon obtained from x.Common() count for the kind(s) x can have.
+	_, instrIface := c.NamedIface(core.SSAPath, "Instruction")
+	var scanRoots []*ssa.Function
+	for _, fn := range c.RepoFunctions() {
+		if c.FuncPkgRel(fn) != "analysis/reachability" || strings.HasSuffix(c.Fset.Position(fn.Pos()).Filename, "_test.go") {
+			continue
+		}
+		for _, p := range fn.Params {
+			if n, ok := types.Unalias(p.Type()).(*types.Named); ok && n.Obj().Name() == "Instruction" && n.Obj().Pkg() != nil && n.Obj().Pkg().Path() == core.SSAPath {
+				scanRoots = append(scanRoots, fn)
+			}
+		}
+	}
+	if len(scanRoots) == 0 || instrIface == nil {
+		r.Fail("infra.anchor-unresolved", "R18.operands|analysis/reachability.<scan of ssa.Instruction>", "", "no function of the package takes an ssa.Instruction")
 		return
 	}
-	r.Analysed(d.Func)
-	info := d.Pkg.TypesInfo
-	for _, im := range d.Impls {
+	scanName := "analysis/reachability.preTraversalVisitValuesInstruction"
+	read := map[string]bool{} // "Kind.Path"
+	kindsOf := func(t types.Type) []string {
+		if k := core.SSATypeName(t); k != "" && k != "CallCommon" && k != "SelectState" {
+			if k == "CallInstruction" {
+				return []string{"Call", "Go", "Defer"}
+			}
+			return []string{k}
+		}
+		return nil
+	}
+	for _, root := range scanRoots {
+		r.Analysed(c.FuncName(root))
+		var fns []*ssa.Function
+		var collect func(f *ssa.Function)
+		collect = func(f *ssa.Function) {
+			fns = append(fns, f)
+			for _, a := range f.AnonFuncs {
+				collect(a)
+			}
+		}
+		collect(root)
+		for _, f := range fns {
+			for _, ii := range core.InlinedInstrs(c, f, 3, func(ins ssa.Instruction) bool {
+				switch x := ins.(type) {
+				case *ssa.FieldAddr:
+					return core.SSATypeName(x.X.Type()) != ""
+				case *ssa.Field:
+					return core.SSATypeName(x.X.Type()) != ""
+				}
+				return false
+			}) {
+				path, rootV := ii.PathAndRoot(ii.Ins.(ssa.Value))
+				if path == "" || rootV == nil {
+					continue
+				}
+				kinds := kindsOf(rootV.Type())
+				if call, ok := rootV.(*ssa.Call); ok && len(kinds) == 0 {
+					// x.Common(): a CallCommon of the kind(s) of x
+					if call.Call.IsInvoke() && call.Call.Method.Name() == "Common" {
+						kinds = kindsOf(call.Call.Value.Type())
+						path = "Call." + path
+					} else if sc := call.Call.StaticCallee(); sc != nil && sc.Name() == "Common" && len(call.Call.Args) > 0 {
+						kinds = kindsOf(call.Call.Args[0].Type())
+						path = "Call." + path
+					}
+				}
+				for _, k := range kinds {
+					read[k+"."+path] = true
+				}
+			}
+		}
+	}
+	for _, im := range c.Implementers(instrIface) {
 		name := strings.TrimPrefix(core.ShortType(im), "*ssa.")
 		ops := tab[name]
-		cl := d.Switch.ClauseFor(im)
-		// selectors read inside the clause, rooted anywhere: F, Call.F (x.Call.F or common.F)
-		read := map[string]bool{}
-		if cl != nil {
-			ast.Inspect(cl.Clause, func(n ast.Node) bool {
-				se, ok := n.(*ast.SelectorExpr)
-				if !ok {
-					return true
-				}
-				t := info.TypeOf(se.X)
-				switch core.SSATypeName(t) {
-				case name:
-					read[se.Sel.Name] = true
-				case "CallCommon":
-					read["Call."+se.Sel.Name] = true
-				case "SelectState":
-					read["States."+se.Sel.Name] = true
-				}
-				return true
-			})
-		}
 		if len(ops) == 0 {
-			r.OK("R18.operands", d.Func+"|"+name, c.Pos(d.Switch.Stmt.Pos()), "kind has no operands")
+			r.OK("R18.operands", scanName+"|"+name, "", "kind has no operands")
 			continue
 		}
 		for _, op := range ops {
-			key := d.Func + "|" + name + "." + op
-			pos := c.Pos(d.Switch.Stmt.Pos())
-			if cl != nil {
-				pos = c.Pos(cl.Clause.Pos())
-			}
+			key := scanName + "|" + name + "." + op
 			switch {
-			case read[op]:
-				r.OK("R18.operands", key, pos, "operand is visited")
+			case read[name+"."+op]:
+				r.OK("R18.operands", key, "", "operand is visited")
 			case noFuncOperand[name+"."+op] != "":
-				r.Except("R18.operands", key, pos, noFuncOperand[name+"."+op])
+				r.Except("R18.operands", key, "", noFuncOperand[name+"."+op])
 			default:
-				what := "the arm for " + name + " does not visit it"
-				if cl == nil {
-					what = "there is no arm for " + name
-				}
-				r.Fail("R18.operands", key, pos, "operand "+name+"."+op+" is not scanned for function values ("+what+"): a function that is only referenced there (e.g. passed as an argument of a go/defer call) is reported unreachable although it runs")
+				r.Fail("R18.operands", key, c.Pos(scanRoots[0].Pos()), "operand "+name+"."+op+" is not scanned for function values (no read of it on a value of kind "+name+" in the scan or the helpers it calls): a function that is only referenced there (e.g. passed as an argument of a go/defer call) is reported unreachable although it runs")
 			}
 		}
 	}
@@ -87,8 +123,8 @@ func c18(c *core.Ctx, r *core.Report) {
 
 	// ---- R18.iface
 	fic := c.Func("analysis/reachability", "findInterfaceCallees")
-	fcd := c.FindDispatch("analysis/reachability", "findCallees", core.SSAPath, "Instruction")
-	if fic == nil || fcd == nil {
+	fcf := c.Func("analysis/reachability", "findCallees")
+	if fic == nil || fcf == nil {
 		r.Fail("infra.anchor-unresolved", "R18.iface|analysis/reachability.findInterfaceCallees/findCallees", "", "not found")
 	} else {
 		r.Analysed("analysis/reachability.findInterfaceCallees")
@@ -102,11 +138,20 @@ func c18(c *core.Ctx, r *core.Report) {
 				}
 			}
 		}
+		// arms of findCallees (type switch or if-chain: both are comma-ok assertions on SSA) that do something
 		handles := map[string]bool{}
-		for _, cl := range fcd.Switch.Clauses {
-			for _, t := range cl.Types {
-				if t != nil && len(cl.Clause.Body) > 0 {
-					handles[core.ShortType(t)] = true
+		for _, k := range []string{"MakeInterface", "TypeAssert", "ChangeInterface"} {
+			entries, _ := core.TypeCaseEntry(fcf, k)
+			for _, e := range entries {
+				for _, b := range fcf.Blocks {
+					if !e.Dominates(b) {
+						continue
+					}
+					for _, ins := range b.Instrs {
+						if _, isCall := ins.(ssa.CallInstruction); isCall {
+							handles["*ssa."+k] = true
+						}
+					}
 				}
 			}
 		}
@@ -114,7 +159,7 @@ func c18(c *core.Ctx, r *core.Report) {
 		r.Check(ok, "R18.iface", "analysis/reachability.findInterfaceCallees|static-interface-filter", c.Pos(fic.Pos()),
 			"method marking at interface conversions does not under-approximate later widening conversions",
 			"the methods marked at a MakeInterface are filtered by the methods of the conversion's static interface, while TypeAssert-to-interface and ChangeInterface (which make further methods of the same dynamic value callable) are not handled: `var r io.Reader = f; r.(io.Closer).Close()` runs (*T).Close without it being in the reachable set")
-		r.Check(handles["*ssa.MakeInterface"], "R18.iface", "analysis/reachability.findCallees|MakeInterface-arm", c.Pos(fcd.Switch.Stmt.Pos()),
+		r.Check(handles["*ssa.MakeInterface"], "R18.iface", "analysis/reachability.findCallees|MakeInterface-arm", c.Pos(fcf.Pos()),
 			"interface conversions mark methods of the converted type", "no arm for MakeInterface: methods called through interfaces are never reachable")
 	}
 
